@@ -162,7 +162,7 @@ def get_trigger(uuid: UUID, trigger_index: int) -> Optional['Trigger']:
         The trigger with the given ID
     """
     scenario = store.get_scenario(uuid)
-    if scenario and trigger_index < len(scenario.trigger_manager.triggers):
+    if scenario and 0 <= trigger_index < len(scenario.trigger_manager.triggers):
         return scenario.trigger_manager.triggers[trigger_index]
     return None
 
